@@ -354,9 +354,32 @@ func runC14(c *Ctx, r *Report, tier string) {
 			}
 		}
 	}
-	for _, in := range c.instrs(ri, func(in ssa.Instruction) bool { _, ok := in.(*ssa.MapUpdate); return ok }) {
+	// bad quoting is reported: an entry is recorded without an unquote attempt only if its value is empty or
+	// does not start with a double quote (a lone `"` is bad quoting, not a literal)
+	if mainLoop != nil {
+		for _, b := range c.blocks(ri) {
+			for _, in := range b.Instrs {
+				al, ok := in.(*ssa.Alloc)
+				if !ok || typeName(al.Type()) != "iniValue" {
+					continue
+				}
+				noQuote := func(l Lit) bool {
+					if l.Pos {
+						return false
+					}
+					return strings.HasPrefix(l.Term, "nonempty(call:strings.TrimSpace(after(") || strings.HasPrefix(l.Term, "eq(34, idx(call:strings.TrimSpace(after(")
+				}
+				q := &PathQ{c: c, Fn: ri, CutLit: noQuote, CutIn: c.isCallTo("strconv.Unquote")}
+				path, found := q.Reach(Site{mainLoop.Header, 0}, 0, isInstr(in))
+				r.Check(!found, "CLASSIFY", fname, "a value starting with a quote is always put through Unquote", c.ipos(in), "entry recorded REQ(Unquote attempted ∨ value empty ∨ value[0] ≠ '\"')", "a value that starts with a double quote can be recorded without an unquote attempt (bad quoting is accepted silently): "+pathStr(path))
+			}
+		}
+	}
+	for _, ci := range c.instrsCtx(ri, func(in ssa.Instruction) bool { _, ok := in.(*ssa.MapUpdate); return ok }) {
+		in := ci.In
 		mu := in.(*ssa.MapUpdate)
-		k := c.term(mu.Key)
+		var k string
+		c.within(ci.Frames, func() { k = c.term(mu.Key) })
 		if k == `""` {
 			continue
 		}
@@ -499,6 +522,12 @@ func runC14(c *Ctx, r *Report, tier string) {
 		r.Fail("UNKNOWN", ipn, "IgnoreUnknown tests", "", fmt.Sprintf("expected tests for unknown sections and unknown options, found %d", nIgn))
 	}
 
+	// every section is looked up, also one without entries: an unknown section header is reported
+	for _, in := range c.instrs(ip, c.isCallTo("(*IniParser).matchingGroups")) {
+		if sl := innermost(iloops, in.Block()); sl != nil {
+			r.Check(c.everyTripPasses(ip, sl, c.isCallTo("(*IniParser).matchingGroups")), "UNKNOWN", ipn, "every section name is resolved", c.ipos(in), "every trip around the section loop passes matchingGroups(name)", "a section can be skipped before its name is looked up: an unknown (e.g. empty) section is not reported as ErrUnknownGroup")
+		}
+	}
 	// ---- PROGRESS
 	if mainLoop != nil {
 		has := c.everyTripPasses(ri, mainLoop, c.isCallTo("readFullLine"))
